@@ -529,10 +529,14 @@ class PathRunner(object):
 # ---------------------------------------------------------------------------
 # deny list
 # ---------------------------------------------------------------------------
+def _noop_observer(comp, broker):
+    pass
+
+
 class DenyRunner(object):
     """The deny-list world W2/{root, out}: every declarative factory is evaluated by dr.run under a recording host
     context with the Hydration.make_persister observer, after insights.collect.apply_blacklist(cfg)."""
-    FILES = {"/x/ab": "1", "/x/my b": "2", "/x/c+(1).repo": "3", "/etc/hosts": "4", "/etc/fstab": "5",
+    FILES = {"/x/ab": "1", "/x/my b": "2", "/x/c+(1).repo": "3", "/x/nn": "8", "/etc/hosts": "4", "/etc/fstab": "5",
              "/boot/grub2/grub.cfg": "6", "/sys/kernel/debug/x86/pti_enabled": "7"}
     SPECS = ("hosts", "fstab", "date", "grub2_cfg", "x86_pti_enabled", "wc_proc_1_mountinfo")
     SAVE_AS = {"none": None, "file": "sv/x", "dir": "sv/", "absfile": "/sv/x", "absdir": "/sv/", "bare": "sv"}
@@ -549,6 +553,9 @@ class DenyRunner(object):
         self.root = os.path.join(self.W, "root")
         self.out = os.path.join(self.W, "out")
         os.makedirs(self.out)
+        os.makedirs(os.path.join(self.root, "x", "sub"))          # for the path "/x/sub/../nn"
+        # one harmless process-wide observer, registered through the public API (declared in every trace)
+        dr.add_observer(_noop_observer)
         self.ino = {}
         for rel, content in self.FILES.items():
             p = self.root + rel
@@ -576,7 +583,8 @@ class DenyRunner(object):
         elif fac == "first_file":
             f = sf.first_file(strs, context=HostContext, kind=K, **kw)
         elif fac == "glob_file":
-            f = sf.glob_file("/x/*", context=HostContext, kind=K, **kw)
+            # the patterns yield exactly the candidate items, each in the form it is written here
+            f = sf.glob_file(["/x/[amc]*", "/x/sub/../n*"], context=HostContext, kind=K, **kw)
         elif fac == "foreach_collect":
             f = sf.foreach_collect(items_provider, "/x/%s", context=HostContext, kind=K, **kw)
             prov = [x[len("/x/"):] for x in strs]
@@ -632,7 +640,7 @@ class DenyRunner(object):
         broker[HostContext] = ctx
         if prov is not None:
             broker[items_provider] = prov
-        before = self.snapshot()
+        before0 = before = self.snapshot()
         enabled_obj, enabled_snap = dr.ENABLED, dict(dr.ENABLED)
         if entry == "collect":
             # the real collection entry point: the manifest disables every component by default and enables the
@@ -650,6 +658,14 @@ class DenyRunner(object):
         AUDIT.start(guard=self.base)
         try:
             if entry == "collect":
+                # two collections in one process, each with its own output directory; what the SECOND one
+                # writes is what is recorded
+                AUDIT.on = False
+                collect_mod.collect(manifest=manifest, rm_conf=dict(cfg), tmp_path=self.W, archive_name="out0")
+                self.reset()
+                before = self.snapshot()
+                AUDIT.events = []
+                AUDIT.on = True
                 collect_mod.collect(manifest=manifest, rm_conf=dict(cfg), tmp_path=self.W, archive_name="out")
                 self.stats["collect_entry"] += 1
             else:
@@ -683,7 +699,11 @@ class DenyRunner(object):
         for it in case["items"]:
             w = it["w"]
             if it["t"] == "file":
-                acc = " ".join(w) in opened
+                try:                         # the item's file, whatever form its path is written in
+                    st = os.stat(self.root + " ".join(w))
+                    acc = self.ino.get((st.st_dev, st.st_ino)) in opened
+                except OSError:
+                    acc = False
                 self.stats["blank_items"] += int(len(w) > 1)
             else:
                 acc = any(a[-len(w):] == w for a in execd if len(a) >= len(w))
@@ -707,15 +727,16 @@ class DenyRunner(object):
         self.stats["datafiles"] += sum(1 for w in written if "meta_data" not in w)
         self.stats["blocked"] += len(blocked)
         for p in after:                             # undo: drop created files, restore modified ones
-            if p not in before:
+            if p not in before0:
                 os.unlink(p)
-            elif after[p] != before[p]:
+            elif after[p] != before0[p]:
                 rel = p[len(self.root):]
                 with open(p, "w") as f:
                     f.write(self.FILES.get(rel, ""))
                 os.utime(p, (OLD, OLD))
         self.stats["collects"] += 1
         return [dict(ev="collect", factory=fac, kind=kind, comp=case["comp"], files=case["files"], entry=entry,
+                     process_observer=True,
                      commands=case["commands"], comps=case["comps"], items=items, stored=(ds in broker)),
                 dict(ev="fpersist", factory=fac, kind=kind, saveas=saveas, seq="single", path=[],
                      written=written + blocked, wtypes=wtypes, dsts=dsts + blocked)]
